@@ -87,16 +87,18 @@ def Bank.new (maxSize bankSize : Nat) : Bank :=
   { maxSize, currentSize := 0, bankSize := if bankSize = 0 then maxSize else bankSize,
     rom := List.replicate maxSize 0, gaps := [], samples := [] }
 
-/-- `Wave_Bank::fit_sample(header, start, end)` with `header.size = size`. -/
-def fitSample (bank size start stop : Nat) : Nat :=
+/-- the bank-crossing adjustment of `Wave_Bank::fit_sample` (its first two `if`s) -/
+def fitStart (bank size start : Nat) : Nat :=
   let sampleEnd := u32 (start + size)
   let startBank := u32 (start / bank)
   let endBank := u32 (sampleEnd / bank)
-  let start' :=
-    if startBank ≠ endBank ∧ size > bank then u32 (start + (Tables.wave_align - 1)) / Tables.wave_align * Tables.wave_align
-    else if startBank ≠ endBank ∧ start % bank ≠ 0 then u32 ((startBank + 1) * bank)
-    else start
-  if u32 (start' + size) > stop then NO_FIT else start'
+  if startBank ≠ endBank ∧ size > bank then u32 (start + (Tables.wave_align - 1)) / Tables.wave_align * Tables.wave_align
+  else if startBank ≠ endBank ∧ start % bank ≠ 0 then u32 ((startBank + 1) * bank)
+  else start
+
+/-- `Wave_Bank::fit_sample(header, start, end)` with `header.size = size`. -/
+def fitSample (bank size start stop : Nat) : Nat :=
+  if u32 (fitStart bank size start + size) > stop then NO_FIT else fitStart bank size start
 
 /-- loop of `find_gap`: index and aligned start of the smallest gap that fits -/
 def findGapGo (bank size : Nat) : List Gap → Nat → Option (Nat × Nat) → Nat → Option (Nat × Nat)
@@ -123,8 +125,9 @@ def dupTest (b : Bank) (h : Sample) (data : Bytes) (i : Sample) : Bool :=
 def findDuplicate (b : Bank) (h : Sample) (data : Bytes) : Option Nat :=
   b.samples.findIdx? (dupTest b h data)
 
-/-- `operator==(Sample, Sample)`: comparison of the serialised headers -/
-def sameHeader (a c : Sample) : Bool := a.toBytes == c.toBytes
+/-- `operator==(Sample, Sample)`: comparison of the serialised headers; every field is a
+`uint32_t` and `to_bytes` writes all eight of them, so this is equality of the fields -/
+def sameHeader (a c : Sample) : Bool := decide (a = c)
 
 /-- `std::copy_n(sample.begin(), n, rom.begin() + at)` -/
 def writeAt (rom : Bytes) (at_ : Nat) (src : Bytes) (n : Nat) : Bytes :=
